@@ -341,6 +341,56 @@ func run(cfg lib.Cfg) error {
 			}
 			judge(sc, "corpus-dependents-reference-different-integrations", true, nil)
 		}
+		// a DEPENDENT with a configured stop, the head beyond the stop, the referenced integration
+		// started but still below the stop: the stop clamp may only LOWER the bound that the
+		// dependency position gives.  r-one records one batch, the dependent takes three steps
+		// (it must stay at r-one's position), then everybody runs on: the dependent ends at
+		// its stop and reports completion.  Variants: stop a multiple of the batch size or not,
+		// batch larger than the whole range, reference on the block field, two references of
+		// which one is beyond the stop, the reference exactly at the stop.
+		for v, c := range []struct {
+			shape        string
+			batch        int
+			stop         uint64
+			refSteps     int
+			second, r2At int // second reference (0 none, 1 input "to", 2 block field) and its steps
+		}{
+			{"dep", 2, 6, 1, 0, 0},
+			{"dep", 2, 5, 1, 0, 0},
+			{"dep", 7, 6, 1, 0, 0}, // r-one has a stop of its own at 3 (below)
+			{"depbd", 3, 8, 1, 0, 0},
+			{"dep", 2, 6, 1, 1, 5}, // r-two is at the head, r-one at 2
+			{"dep", 2, 6, 3, 0, 0}, // r-one exactly at the stop: the dependent may go there, not beyond
+		} {
+			d := dep("a-dep", c.shape, "d1", "r-one")
+			d.Sources[0].Stop = c.stop
+			igs := []ts.IGSpec{d, created("r-one", "r1")}
+			if v == 2 {
+				igs[1].Sources[0].Stop = 3
+			}
+			if c.second > 0 {
+				igs[0].Ref2 = "r-two"
+				igs = append(igs, created("r-two", "r2"))
+			}
+			g := finishGraph(igs)
+			sc := mk(fmt.Sprintf("corpus-dependent-with-stop-%d", v), g, 10, c.batch, 1, uint64(82+v))
+			for i := 0; i < c.r2At; i++ {
+				sc.Acts = append(sc.Acts, ts.Act{Do: "step", Tid: 3})
+			}
+			for i := 0; i < c.refSteps; i++ {
+				sc.Acts = append(sc.Acts, ts.Act{Do: "step", Tid: 2})
+			}
+			sc.Acts = append(sc.Acts, ts.Steps(1, 3)...)
+			quiet := v != 2
+			if quiet {
+				for i := 0; i < 7; i++ {
+					for t := 1; t <= g.nTasks; t++ {
+						sc.Acts = append(sc.Acts, ts.Act{Do: "step", Tid: t})
+					}
+				}
+			}
+			judge(sc, "corpus-dependent-with-stop", quiet, nil)
+		}
 		// the smallest history of this kind: a-ref never runs, c-ref records two batches,
 		// each dependent takes one step: b-dep must do nothing, d-dep may follow c-ref
 		{
@@ -536,6 +586,17 @@ func run(cfg lib.Cfg) error {
 		head := r.Range(5, 12)
 		if multi {
 			head = r.Range(5, 9) // 4-6 tasks: keep the histories short
+		}
+		if r.Intn(3) == 0 {
+			// bounded backfills: dependents (each with probability 1/2) get a stop below, at or beyond the head
+			for k := range g.igs {
+				if len(g.igs[k].DeclaredRefs()) > 0 && r.Bool() {
+					stop := uint64(r.Range(int(dstart), head+2))
+					for j := range g.igs[k].Sources {
+						g.igs[k].Sources[j].Stop = stop
+					}
+				}
+			}
 		}
 		sc := mk(fmt.Sprintf("deps-%d", i), g, head, r.Range(1, 4), r.Range(1, 3), r.U64()%1_000_000)
 		mode := r.Intn(4)
